@@ -575,6 +575,15 @@ def check(pid, tier='quick', verif_seed=0, workers=None, n_runs=None,
              if (x['clause'], x['sig']) != (clause, sig)]
         path = write_replay(pid, v, plan, sched, out, minimised)
         ok, txt = verify_replay_fresh(path)
+        if not ok and minimised:
+            # (state that the code under test keeps at class or module level
+            # leaks from run to run inside a worker; a plan minimised there
+            # may depend on it.  The plan as it was generated is tried too)
+            out0 = replay_case(mod, v['plan'], v['sched'])
+            if (clause, sig) in _sig_set(out0):
+                path = write_replay(pid, v, v['plan'], v['sched'], out0,
+                                    False)
+                ok, txt = verify_replay_fresh(path)
         if not ok:
             harness_msgs.append('replay %s did not reproduce in a fresh '
                                 'interpreter:\n%s' % (path, txt[-600:]))
